@@ -231,7 +231,15 @@ func (c *FnCtx) evalCall(st *State, call *ast.CallExpr) []Term {
 				_, haveIsPtr := recv.T.Underlying().(*types.Pointer)
 				if !recvIsPtr && haveIsPtr {
 					if _, isIface := rt.Underlying().(*types.Interface); !isIface {
-						recv = c.derefValue(st, recv, sel.Pos())
+						if nn, _, _ := derefNamedStruct(recv.T); nn != nil && !c.e.d.modelled(nn) {
+							// opaque dependency struct: a value-receiver method called through the pointer sees
+							// "the object"; the pointer stands for it (no separate value term)
+							if c.safety {
+								c.nilCheck(st, recv, sel.Pos(), "recv")
+							}
+						} else {
+							recv = c.derefValue(st, recv, sel.Pos())
+						}
 					}
 				}
 				if recvIsPtr && !haveIsPtr {
